@@ -12,6 +12,16 @@ last = {}
 lp = os.path.join(V, "selftest", "last_run.json")
 if os.path.exists(lp):
     last = json.load(open(lp))
+
+
+def _totals():
+    ms = [json.load(open(mp)) for mp in
+          glob.glob(os.path.join(V, "seeded", "*", "meta.json"))]
+    ood = sum(1 for m in ms if m.get("out_of_domain"))
+    nd = sum(1 for m in ms if m.get("not_detected"))
+    return len(ms), ood, nd, len(ms) - ood - nd
+
+
 lines = []
 lines.append("### 10.1 Changes seeded by independent sub-agents\n")
 lines.append("Each sub-agent saw only the text of one property and a scratch "
@@ -57,11 +67,15 @@ lines.append("Each sub-agent saw only the text of one property and a scratch "
              "use: the agents turned to threads, the working directory, "
              "process ids, header fields the tool never read, C type "
              "aliases, double faults, terminal encodings, near-identity "
-             "transforms. 220 changes in total: 6 rejected as outside the "
-             "quantified domain (marked), 1 not detected (marked, a "
-             "documented limit), 213 detected; "
+             "transforms. Round 12 (S12-*) demanded that the trigger be a "
+             "pure function of the INPUTS of the property (values, shapes, "
+             "options, file contents, call sequence) - a hole in the input "
+             "space of the checks as described to the agent, not in their "
+             "environment. %d changes in total: %d rejected as outside the "
+             "quantified domain (marked), %d not detected (marked, a "
+             "documented limit), %d detected; "
              "the 'caught by' column says when a check had to be "
-             "strengthened first.\n")
+             "strengthened first.\n" % _totals())
 lines.append("| seeded change | breaks | what it needs to manifest | caught by"
              " | first violation reported |")
 lines.append("|---|---|---|---|---|")
